@@ -186,6 +186,20 @@ def extract_cholesky(src):
                                    and "diag_add" in str(facts.get("_writeArg")))
         facts["clones"] = bool(facts.get("_cloneVar") is not None and facts["writeTarget"] == facts.get("_cloneVar")
                                and facts["retryCallArg"] == facts.get("_cloneVar"))
+    # early exits: any `return` / `raise` textually before the first cholesky_ex call (core) or before the call of the core (wrapper)
+    def stmts_before(fn, pred):
+        cnt, found = 0, False
+        for st in fn.body:
+            if any(pred(x) for x in ast.walk(st)):
+                found = True
+                break
+            cnt += sum(isinstance(x, (ast.Return, ast.Raise)) for x in ast.walk(st))
+        return cnt if found else 99
+    facts["coreEarlyExits"] = stmts_before(core, lambda x: isinstance(x, ast.Call) and ast.unparse(x.func).endswith("cholesky_ex"))
+    facts["wrapperEarlyExits"] = stmts_before(wrap, lambda x: isinstance(x, ast.Call) and ast.unparse(x.func) == "_psd_safe_cholesky")
+    for x in ast.walk(wrap):
+        if isinstance(x, ast.Call) and ast.unparse(x.func) == "_psd_safe_cholesky":
+            facts["wrapperCoreCall"] = ast.unparse(x)
     # wrapper: what happens under `if upper:`
     for st in wrap.body:
         if isinstance(st, ast.If) and ast.unparse(st.test) == "upper":
@@ -236,8 +250,30 @@ def extract_settings(src):
     return res
 
 
+def extract_operator(src):
+    """`LinearOperator._cholesky`: the size shortcut and the psd_safe_cholesky call; `cholesky`: the transpose for upper."""
+    res = {"opShortcutTest": "?", "opShortcutReturn": "?", "opPscCall": "?", "opCholeskyCallsLower": False}
+    tree = ast.parse(src)
+    cls = _class(tree, "LinearOperator")
+    if cls is None:
+        return res
+    for fn in cls.body:
+        if isinstance(fn, ast.FunctionDef) and fn.name == "_cholesky":
+            for st in fn.body:
+                if isinstance(st, ast.If) and "size" in ast.unparse(st.test) and any(isinstance(b, ast.Return) for b in st.body):
+                    res["opShortcutTest"] = ast.unparse(st.test)
+                    res["opShortcutReturn"] = ast.unparse(st.body[0].value) if isinstance(st.body[0], ast.Return) else "?"
+            for x in ast.walk(fn):
+                if isinstance(x, ast.Call) and ast.unparse(x.func) == "psd_safe_cholesky":
+                    res["opPscCall"] = ast.unparse(x)
+        if isinstance(fn, ast.FunctionDef) and fn.name == "cholesky":
+            res["opCholeskyCallsLower"] = any(isinstance(x, ast.Call) and ast.unparse(x) == "self._cholesky(upper=False)" for x in ast.walk(fn))
+    return res
+
+
 def extract():
     ch = extract_cholesky(open(os.path.join(REPO, "linear_operator/utils/cholesky.py")).read())
+    ch.update(extract_operator(open(os.path.join(REPO, "linear_operator/operators/_linear_operator.py")).read()))
     se = extract_settings(open(os.path.join(REPO, "linear_operator/settings.py")).read())
     return ch, se
 
@@ -290,6 +326,15 @@ def render(ch, se):
         f"def coreParams : List (String × String) := {pairs(ch['coreParams'])}",
         f"def wrapperParams : List (String × String) := {pairs(ch['wrapperParams'])}",
         f"def wrapperUpperExpr : String := {lean_str(ch['wrapperUpperExpr'])}",
+        "/-- number of `return`/`raise` statements before the first `cholesky_ex` call (core) / before the core call (wrapper): size or other shortcuts -/",
+        f"def coreEarlyExits : Nat := {nat(ch.get('coreEarlyExits', 99), 99)}",
+        f"def wrapperEarlyExits : Nat := {nat(ch.get('wrapperEarlyExits', 99), 99)}",
+        f"def wrapperCoreCall : String := {lean_str(ch.get('wrapperCoreCall', '?'))}",
+        "/-- `LinearOperator._cholesky` / `cholesky` -/",
+        f"def opShortcutTest : String := {lean_str(ch.get('opShortcutTest', '?'))}",
+        f"def opShortcutReturn : String := {lean_str(ch.get('opShortcutReturn', '?'))}",
+        f"def opPscCall : String := {lean_str(ch.get('opPscCall', '?'))}",
+        f"def opCholeskyCallsLower : Bool := {'true' if ch.get('opCholeskyCallsLower') else 'false'}",
         "",
         "/-- `settings.cholesky_jitter._global_float_value` / `_global_double_value` (sentinel -1 if absent) -/",
         f"def jitterFloat : Rat := {lean_rat(se['jitterFloat'])}",
